@@ -206,7 +206,9 @@ def k5(ctx, rid):
     f = prog.body_of('storage::core::Storage::<K>::init_from_existing')
     if f is None:
         raise core.AnchorLost('init_from_existing')
-    pops = [c for c in f.calls if 'storage::core::Storage::<K>::pop_active' in prog.resolve(c)]
+    # promotion of an already existing blob: the helper pop_active, or a direct pop() from the vector of opened blobs
+    pops = [c for c in f.calls if 'storage::core::Storage::<K>::pop_active' in prog.resolve(c)
+            or (c.name == 'pop' and c.path.startswith('std::vec::Vec') and 'blob::core::Blob<' in c.full)]
     news = [c for c in f.calls if blobs.is_fresh_call(prog, c)]
     if not pops or not news:
         raise core.AnchorLost('pop_active / open_new in init_from_existing')
